@@ -270,7 +270,8 @@ def mk_value(kind, tok, near=False):
         r['lat'][-1] = r['lat'][-1] + 3e-11      # exact comparison: UNEQUAL
     if deco == 'ulpsky' and kind == 'skypos':
         r = dict(r)
-        r['lon'] = r['lon'] + 3e-11           # must compare UNEQUAL (exact)
+        ax = 'lon' if tok % 2 else 'lat'
+        r[ax] = r[ax] + 3e-11                 # must compare UNEQUAL (exact)
     v = build(r)
     if deco == 'ulp':
         if kind == 'size':
@@ -2810,9 +2811,45 @@ class Machine:
                 n.tainted.add(f)
                 self.add_slot('region', res, n)
 
+    def _copyset_compound(self, a, rng):
+        S = self.slots[a]
+        obj, cls = S.obj, S.model.cls
+        wrong = [s.obj for s in self.slots if s.kind == 'region'
+                 and s.model.sky != S.model.sky and not s.model.compound]
+        f = rng.pick(['region1', 'region2', 'operator', 'meta', 'visual'])
+        if f in ('region1', 'region2'):
+            name, v = rng.pick([('none', None), ('int', 5), ('str', 'circle'),
+                                ('class', type(obj))] +
+                               ([('wrongkind', wrong[0])] if wrong else []))
+        elif f == 'operator':
+            name, v = rng.pick([('none', None), ('str', 'and'), ('int', 5)])
+        else:
+            name, v = 'badkey', {bad_key(rng, f): 1}
+            if rng.chance(0.3):
+                name, rec = rng.pick(NON_MAPPINGS)
+                v = build_invalid(rec)
+                name = 'not-a-mapping:' + name
+        value = f'compound:{f}:{name}'
+        what = f'{cls}.copy({f}={name})'
+        out, res = self.c17_outcome(lambda: obj.copy(**{f: v}), True, what,
+                                    cls, f, value)
+        self.ev(slot=a, cls=cls, field=f, value=value, invalid=True,
+                outcome=out)
+        if out == 'wrongly-accepted':
+            n = mcopy(S.model)
+            n.tainted.update(['region1', 'region2', 'operator', 'meta',
+                              'visual'])
+            self.add_slot('region', res, n)
+
     # ------------------------------------------------- copy with changes
     def op_copyset(self, op, rng):
         """``region.copy(field=value)``: the same domain as assignment."""
+        if rng.chance(0.15):
+            c = self.pick(op['s'], lambda s: s.kind == 'region'
+                          and s.model.compound and not s.model.tainted
+                          and not self._sub_tainted(s.model))
+            if c is not None:
+                return self._copyset_compound(c, rng)
         a = self.pick(op['s'], lambda s: s.kind == 'region'
                       and not s.model.compound)
         if a is None:
